@@ -63,6 +63,9 @@ pub enum Op {
     PolicyInvalid(TxRef),
     /// The next poll is answered with an equal-work sibling of the tip.
     WorseTip,
+    /// The node switches to an equal-work sibling of its tip holding `txs` (`preciousblock`): the tower sees a "worse"
+    /// tip of equal work until something is mined on top of it.
+    Precious { txs: Vec<TxRef> },
     /// Graceful stop and start on the same data directory.
     Restart,
     NodeDown,
@@ -70,6 +73,9 @@ pub enum Op {
     /// The node comes back, and goes away again when the `rpcs`-th RPC after that is issued (C12: an outage that hits
     /// the retried call).
     NodeUpThenDownAfter { rpcs: u32 },
+    /// The node comes back, and goes away again at the `calls`-th block-source call after that (C12: a second outage that
+    /// begins at a poll, while nobody else is talking to the node).
+    NodeUpThenDownAtBs { calls: u32 },
     /// The node comes back having lost its last `k` blocks (their transactions are back in its mempool); it connects
     /// them again only after the scheduled phase (C12: a reachable node that is behind the tower's tip).
     NodeUpBehind { k: u32 },
@@ -77,6 +83,8 @@ pub enum Op {
     FetchFault { nth: u32, persistent: bool },
     /// Environment thread only: yields until the node is down (or `max` scheduling points went by).
     WaitNodeDown { max: u32 },
+    /// Scheduled phases only: lets `n` scheduling points go by (spreads polls / environment actions over an outage).
+    Yield { n: u32 },
     /// Chain thread (C12): yields until the node is reachable again (or `max` scheduling points went by).
     WaitNodeUp { max: u32 },
     /// C15: the request of `base` (Register / RegisterBadId / Add / Get / SubInfo / Ping) made through the real HTTP front
@@ -130,15 +138,18 @@ impl Op {
             Op::Evict(_) => "evict",
             Op::PolicyInvalid(_) => "policy_invalid",
             Op::WorseTip => "worse_tip",
+            Op::Precious { .. } => "precious",
             Op::Restart => "restart",
             Op::NodeDown => "node_down",
             Op::NodeUp => "node_up",
             Op::NodeUpThenDownAfter { .. } => "node_up_then_down",
+            Op::NodeUpThenDownAtBs { .. } => "node_up_then_down_at_poll",
             Op::NodeUpBehind { .. } => "node_up_behind",
             Op::FetchFault { .. } => "fetch_fault",
             Op::ForceVerdict { .. } => "force_verdict",
             Op::WaitNodeDown { .. } => "wait_node_down",
             Op::WaitNodeUp { .. } => "wait_node_up",
+            Op::Yield { .. } => "yield",
             Op::Http { base, .. } => match base.kind() {
                 "register" => "http_register",
                 "register_bad_id" => "http_register_bad_id",
